@@ -107,8 +107,8 @@ fn plan(prop: &str) -> Plan {
             runs_thorough: 30_000_000,
             builds_quick: &["default", "preserve_order", "perf"],
             builds_thorough: ALL_BUILDS,
-            rule: "One evaluation = one seeded scenario: either (A) a type description T + value v, serialized to a document by one of the five text serializers, then decoded by the reader peer R(T) through all thirteen decoding routes (toml::from_str, toml_edit::de::from_str/from_slice, from_document(DocumentMut/ImDocument), the IntoDeserializer entry points, toml::Value::try_into, toml::Table::try_into, the single-value deserializers) and, in a seeded quarter of the scenarios each, seven alias entry points (Deserializer::parse / FromStr / new, str::parse::<Value/Table>, Value/Table::into_deserializer), plus Value/Table::try_from compared with the text route, and the two value-level serializers compared with each other and with Value::try_from (asserted); a third of the runs use hand-written leaf visitors (visit_i64 / visit_f64 only, H9); or (B) a DocGen/corpus document with an inferred (sometimes mismatching) reader type through the seven document routes; in both a fraction of runs injects F-VIS (a visitor callback of the reader fails at callback k, entry or exit) and B sometimes lets the reader stop early (H8). Non-trivial = type description + document tree have >= 3 nodes; distinct = distinct conversation shape (hash of the seam event sequence of the whole run, payloads erased), counted with a hash set. In 1/8 of the evaluations the peers are REAL derived types (workload R, sim/src/realfam.rs: seven families using flatten, untagged, internally and adjacently tagged enums, default, rename_all, skip_serializing_if, Box, toml::Table flattened, and HashMap fields whose iteration order is the environment's choice) driven through the same seams, faults and oracles.",
-            real: &["all nine decoding routes (toml::de, toml_edit::de::*, impl Deserializer for toml::Value / toml::Table)", "toml::Value::try_from / Table::try_from, toml::ser::ValueSerializer, toml_edit::ser::ValueSerializer", "the five text serializers (document production)", "toml_edit parser", "serde's primitive impls, toml_datetime impls, toml::Value Deserialize"],
+            rule: "One evaluation = one seeded scenario: either (A) a type description T + value v, serialized to a document by one of the five text serializers, then decoded by the reader peer R(T) through all thirteen decoding routes (toml::from_str, toml_edit::de::from_str/from_slice, from_document(DocumentMut/ImDocument), the IntoDeserializer entry points, toml::Value::try_into, toml::Table::try_into, the single-value deserializers) and, in a seeded quarter of the scenarios each, seven alias entry points (Deserializer::parse / FromStr / new, str::parse::<Value/Table>, Value/Table::into_deserializer), plus Value/Table::try_from compared with the text route, and the two value-level serializers compared with each other and with Value::try_from (asserted); a third of the runs use hand-written leaf visitors (visit_i64 / visit_f64 only, H9); or (B) a DocGen/corpus document with an inferred (sometimes mismatching) reader type through the document routes; in both a fraction of runs injects F-VIS (a visitor callback of the reader fails at callback k, entry or exit) and B sometimes lets the reader stop early (H8). Non-trivial = type description + document tree have >= 3 nodes; distinct = distinct conversation shape (hash of the seam event sequence of the whole run, payloads erased), counted with a hash set. In 1/8 of the evaluations the peers are REAL derived types (workload R, sim/src/realfam.rs: seven families using flatten, untagged, internally and adjacently tagged enums, default, rename_all, skip_serializing_if, Box, toml::Table flattened, and HashMap fields whose iteration order is the environment's choice) driven through the same seams, faults and oracles.",
+            real: &["all thirteen decoding routes and seven alias entry points (toml::de, toml_edit::de::*, IntoDeserializer impls, impl Deserializer for toml::Value / toml::Table)", "toml::Value::try_from / Table::try_from, toml::ser::ValueSerializer, toml_edit::ser::ValueSerializer", "the five text serializers (document production)", "toml_edit parser", "serde's primitive impls, toml_datetime impls, toml::Value Deserialize"],
             stub: &["reader peer R(T) incl. DynVal root adapter", "writer peer W(T,v)", "seam interposers (log events, inject F-VIS)", "DocGen renderer + type inference", "reference reader (probe only, not asserted)"],
             assumptions: &["only what C13 states is asserted: successful routes agree; on text produced by serializing a value of T (must-succeed class) every route succeeds and returns it, and outside that class no route fails while another one reads the value back; try_from equals the text route and the value-level text when both succeed; a reader failure is never swallowed and nothing panics", "which value is *right* for a hand-written document is C02's business: comparison with the reference reader is a probe, not an assertion", "peer stubs behave like serde_derive output (self-tested)"],
         },
@@ -129,7 +129,7 @@ fn plan(prop: &str) -> Plan {
             runs_thorough: 1_500_000,
             builds_quick: &["default", "preserve_order", "perf"],
             builds_thorough: ALL_BUILDS,
-            rule: "One evaluation = one seeded (document, reader type) pair: a DocGen / toml-test document with an inferred reader type (some deliberately mismatching, some with Spanned or toml::Value leaves), or the text obtained by serializing a generated value with its mirrored type. For each of the seven document routes the reader peer is first run fault-free to count its visitor callbacks n; then a failure is injected at ENTRY and at EXIT of EVERY callback k = 0..n-1 (F-VIS, exhaustive in the fault dimension up to 160 callbacks; for documents longer than 2 KiB with more than 48 callbacks the position is sampled instead: first 16, last 16, 16 evenly spaced — counted by probe positions_sampled_for_long_document), one execution per position, and every distinct error obtained is rendered into a sink that fails at EVERY write_str (F-SINK). Non-trivial = reader type + document tree have >= 3 nodes; distinct = distinct conversation shape of the whole evaluation (seam event sequences of all its executions, payloads erased), counted with a hash set. In 1/8 of the evaluations the peers are REAL derived types (workload R, sim/src/realfam.rs: seven families using flatten, untagged, internally and adjacently tagged enums, default, rename_all, skip_serializing_if, Box, toml::Table flattened, and HashMap fields whose iteration order is the environment's choice) driven through the same seams, faults and oracles.",
+            rule: "One evaluation = one seeded (document, reader type) pair: a DocGen / toml-test document with an inferred reader type (some deliberately mismatching, some with Spanned or toml::Value leaves), or the text obtained by serializing a generated value with its mirrored type. For each of the ten document routes (and the alias entry points selected for the scenario) the reader peer is first run fault-free to count its visitor callbacks n; then a failure is injected at ENTRY and at EXIT of EVERY callback k = 0..n-1 (F-VIS, exhaustive in the fault dimension up to 160 callbacks; for documents longer than 2 KiB with more than 48 callbacks the position is sampled instead: first 16, last 16, 16 evenly spaced — counted by probe positions_sampled_for_long_document), one execution per position, and every distinct error obtained is rendered into a sink that fails at EVERY write_str (F-SINK). Non-trivial = reader type + document tree have >= 3 nodes; distinct = distinct conversation shape of the whole evaluation (seam event sequences of all its executions, payloads erased), counted with a hash set. In 1/8 of the evaluations the peers are REAL derived types (workload R, sim/src/realfam.rs: seven families using flatten, untagged, internally and adjacently tagged enums, default, rename_all, skip_serializing_if, Box, toml::Table flattened, and HashMap fields whose iteration order is the environment's choice) driven through the same seams, faults and oracles.",
             real: &["toml_edit::de::* (ValueDeserializer, TableDeserializer/TableMapAccess, ArrayDeserializer, KeyDeserializer, TableEnumDeserializer, SpannedDeserializer, DatetimeDeserializer), toml_edit::de::Error / TomlError (span, keys, raw, Display)", "toml::de wrappers, impl Deserializer for toml::Value / toml::Table, toml::de::Error", "toml_edit parser (document + spans used as expected locations via Item::span()/Key::span())", "serde's primitive impls, toml_datetime / toml::Value Deserialize"],
             stub: &["reader peer R(T) + DynVal root adapter", "seam interposers: inject the failure, track the reader's own path / hint stack / key ordinal (never read back from the library)", "failing fmt::Write sink", "DocGen + type inference"],
             assumptions: &["only the second sentence of C15 is decided (errors raised while deserializing a valid document); errors for rejected texts are not", "expected locations are the library's own Item::span()/Key::span() at the reader-tracked path (their correctness is C14's check)", "an error whose message no longer contains the injected marker is not attributed to the fault: location clauses are skipped for it and it is counted (probe foreign_error)", "single-value deserializers (R7) are not part of this check", "exhaustive only in the fault position; documents and types are sampled"],
